@@ -299,8 +299,13 @@ class Dimension:
         symbol: Optional[str] = None,
     ) -> "Dimension":
         key = exponents
-        if key in cls._known:
-            return cls._known[key]
+        known = cls._known.get(key)
+
+        if name and cls._by_name.get(name, known) is not known:
+            raise ValueError(f"A dimension named {name} is already defined")
+
+        if known is not None:
+            return known
 
         self = super().__new__(cls)
         self._initialized = False
@@ -315,6 +320,12 @@ class Dimension:
         symbol: Optional[str] = None,
     ) -> None:
         if self._initialized:
+            # a dimension that first came about anonymously (as the result of some
+            # arithmetic, say) can still be given its name later
+            if name and not self.name:
+                self.name = name
+                self.symbol = self.symbol or symbol
+                self._by_name[name] = self
             return
 
         self.exponents = exponents
@@ -348,6 +359,9 @@ class Dimension:
         additional dimensions, but be aware that doing so will change the cardinality of
         the `exponents` tuple for _all_ defined Dimensions.
         """
+        if name in cls._by_name:
+            raise ValueError(f"A dimension named {name} is already defined")
+
         index = len(cls._fundamental)
         if index == 0:
             # the first dimension must be Number, with an exponent of zero (identity)
@@ -379,6 +393,8 @@ class Dimension:
         cls, dimension: "Dimension", name: str, symbol: Optional[str] = None
     ) -> "Dimension":
         """Registers a new named dimension derived from other dimension"""
+        if cls._by_name.get(name, dimension) is not dimension:
+            raise ValueError(f"A dimension named {name} is already defined")
         dimension.name = name
         dimension.symbol = symbol or str(dimension)
         cls._by_name[name] = dimension
